@@ -70,6 +70,9 @@ def run_case(ctx, Model, case):
     if 'history' not in case:
         from .common import h64
         case['history'] = [None, None, None, None, 'copy', 'deepcopy', 'reindex', 'add-variable'][h64(['hist', case]) % 8]
+    if 'hook_binding' not in case:
+        from .common import h64
+        case['hook_binding'] = 'instance' if case['model_class'] == 'plain' and h64(['hb', case]) % 4 == 0 else 'class'
     if 'arg_style' not in case:
         from .common import h64
         case['arg_style'] = ['plain', 'plain', 'omit-defaults', 'omit-defaults', 'explicit-defaults', 'numpy-ints', 'bools'][h64(['as', case]) % 7]
